@@ -31,6 +31,8 @@ pub struct Profile {
     pub p_start_disabled: f64,
     pub levels: &'static [usize],
     pub max_tick: u32,
+    /// level count of the book the history will be run on, when the caller fixes it (coarse ticks depend on it)
+    pub levels_override: Option<usize>,
     pub drain: bool,
     /// C12 only: bids may be priced 0 (a multiple of every tick) so that the level walk reaches the bottom of the price range
     pub zero_bids: bool,
@@ -60,6 +62,7 @@ impl Profile {
             p_start_disabled: 0.0,
             levels: &LEVEL_CHOICES,
             max_tick: 10,
+            levels_override: None,
             drain: true,
             zero_bids: false,
         }
@@ -135,8 +138,25 @@ impl RndGen {
     pub fn history(&mut self) -> History {
         let p = self.prof.clone();
         let rng = &mut self.rng;
-        let tick = rng.range(1, p.max_tick as u64) as u32;
-        let levels = *rng.pick(p.levels);
+        let picked = *rng.pick(p.levels);
+        let levels = p.levels_override.unwrap_or(picked);
+        // coarse grids (3% of the histories): a tick so large that the whole price range holds only about as many grid
+        // prices as the book publishes levels - the largest ticks for which the level walk (LEVELS-1)*tick still fits
+        // into the price type; a third of them powers of two
+        let coarse = rng.chance(0.03);
+        let tick = if coarse {
+            let l = levels.max(2) as u64;
+            let hi = ((PMAX as u64) / (l - 1)).min((PMAX as u64 - 1) / 2);
+            let lo = ((PMAX as u64 + 1) / (l + 3)).max(1 << 20).min(hi);
+            let pow2 = 1u64 << (63 - hi.leading_zeros() as u64);
+            if rng.chance(0.33) && pow2 >= lo {
+                pow2 as u32
+            } else {
+                rng.range(lo, hi) as u32
+            }
+        } else {
+            rng.range(1, p.max_tick as u64) as u32
+        };
         let t0 = if rng.chance(0.2) {
             rng.below(1 << 40)
         } else if rng.chance(0.25) {
@@ -153,6 +173,7 @@ impl RndGen {
         let mode = rng.below(20);
         let mode = if p.zero_bids && rng.chance(0.3) { 0 } else { mode };
         let center_k = match mode {
+            _ if coarse => rng.range(1, max_k.max(1)),
             0 => 1 + rng.below(6),               // just above the lowest grid price
             1 => max_k - rng.below(6),           // just below the largest grid price
             2 => {
@@ -163,7 +184,7 @@ impl RndGen {
             _ => rng.range(50, 100_000),
         };
         let mirror = (PMAX as u64) % (tick as u64) == 0 && rng.chance(0.12);
-        let mut band = Band { tick, center_k, half: if mirror { rng.range(0, 2) } else { rng.range(1, 20) }, max_k, mirror };
+        let mut band = Band { tick, center_k, half: if mirror { rng.range(0, 2) } else if coarse { rng.range(1, max_k.max(1)) } else { rng.range(1, 20) }, max_k, mirror };
         let large_hist = rng.chance(p.p_large);
         let n_ops = rng.range(p.ops.0 as u64, p.ops.1 as u64) as usize;
 
